@@ -101,6 +101,18 @@ def run_link(c, slots, carrier=None, pol=None, keep=None):
     return y
 
 
+def eye_data(e, thr):
+    """how degenerate are the eye statistics the decision was based on (for the classification of known finding F03a)"""
+    vals = [getattr(e, k, None) for k in ("mu0", "mu1", "s0", "s1")] + [thr]
+    bad = any(v is None or not np.isfinite(v) for v in vals)
+    if bad:
+        return {"eye_nan": True, "s_min_rel": None, "thr_rel": None}
+    d01 = float(e.mu1 - e.mu0)
+    if not d01 > 0:
+        return {"eye_nan": True, "s_min_rel": None, "thr_rel": None}
+    return {"eye_nan": False, "s_min_rel": float(min(e.s0, e.s1) / d01), "thr_rel": float((thr - e.mu0) / d01)}
+
+
 def transitions(b):
     return int(np.sum(np.diff(b) != 0))
 
@@ -149,8 +161,7 @@ def e_ook(c):
     check(isinstance(out, tuple) and len(out) == 3, "ook.DSP-return-shape", "")
     rx, eye_obj, rth = out
     check(type(rx) is binary_sequence and len(rx) == len(bits), "ook.DSP-output-length", f"{len(rx)} vs {len(bits)}")
-    d01 = float(eye_obj.mu1 - eye_obj.mu0)
-    dat = {"s_min_rel": float(min(eye_obj.s0, eye_obj.s1) / d01) if d01 > 0 else None, "thr_rel": float((rth - eye_obj.mu0) / d01) if d01 > 0 else None}
+    dat = eye_data(eye_obj, rth)
     check(np.array_equal(rx.data, bits), "ook.DSP!=transmitted", f"{int(np.sum(rx.data != bits))} errors of {len(bits)}; sps={c['sps']} shape={c['shape']} elem={c['elem']} "
           f"bw={c['bw']:.2f} ER={c['ER']:.1f} R_load={c['R_load']:.0f} p={c['p_dbm']:.1f} dBm thr={rth} (eye: mu0={eye_obj.mu0:.4g} mu1={eye_obj.mu1:.4g} "
           f"s0={eye_obj.s0:.3g} s1={eye_obj.s1:.3g})", data=dat)
@@ -180,12 +191,22 @@ def e_ppm(c):
     bits = pattern("random" if c["kind"] in ("runs",) else c["kind"], nsym * k, c["seed"], c["p1"])
     slots = lib(PPM.PPM_ENCODER, bits, M)
     y = run_link(c, np.asarray(slots.data, dtype=int))
+    dat = None
+    if c["decision"] == "hard":
+        # the eye statistics the hard decision is based on (same seed, same call as inside ppm.DSP) - only used to classify a failure
+        try:
+            np.random.seed((c["seed"] + 1) % 2 ** 32)
+            e_ = D.GET_EYE(y, nslots=8192)
+            thr_ = e_.threshold if e_.threshold is not None else PPM.THRESHOLD_EST(e_, M)
+            dat = eye_data(e_, thr_)
+        except Exception:  # noqa: BLE001
+            dat = {"eye_nan": True, "s_min_rel": None, "thr_rel": None}
     np.random.seed((c["seed"] + 1) % 2 ** 32)
     rx = lib(PPM.DSP, y, M, c["decision"])
     check(type(rx) is binary_sequence, "ppm.DSP-output-type", "")
-    check(len(rx) == len(bits) and np.array_equal(rx.data, bits), "ppm.DSP!=transmitted",
-          f"{c['decision']} M={M} symbols={nsym}: {int(np.sum(rx.data[:len(bits)] != bits[:len(rx)])) if len(rx) else '?'} errors; sps={c['sps']} shape={c['shape']} "
-          f"elem={c['elem']} bw={c['bw']:.2f} ER={c['ER']:.1f} R_load={c['R_load']:.0f} p={c['p_dbm']:.1f} dBm")
+    check(len(rx) == len(bits) and np.array_equal(rx.data, bits), "ppm.DSP!=transmitted", data=dat, msg=
+          (f"{c['decision']} M={M} symbols={nsym}: {int(np.sum(rx.data[:len(bits)] != bits[:len(rx)])) if len(rx) else '?'} errors; sps={c['sps']} shape={c['shape']} "
+           f"elem={c['elem']} bw={c['bw']:.2f} ER={c['ER']:.1f} R_load={c['R_load']:.0f} p={c['p_dbm']:.1f} dBm; eye: {dat}"))
     check(float(lib(PPM.BER_analizer, "counter", Tx=binary_sequence(bits), Rx=rx)) == 0.0, "ber-counter!=0", "")
     return {"nontrivial": True, "classes": [c["decision"], f"M{M}", c["shape"], c["elem"], f"pol{c['npol']}", "odd-sps" if c["sps"] % 2 else "even-sps"]}
 
@@ -213,14 +234,30 @@ def e_cnt(c):
 
 
 def classify(part, case, v):
-    """Known finding F03a: on a noise-free waveform GET_EYE measures the level spreads on every other slot only; when those slots happen to
-    carry no inter-symbol interference one sigma estimate is ~0 (< 1e-3 of the level distance), the Gaussian-optimal threshold of
-    ook.THRESHOLD_EST then lies within 2% of that level, and ISI-affected symbols of the remaining slots are mis-decided."""
-    if part == "ook_dsp" and v.tag == "ook.DSP!=transmitted":
+    """Known finding F03a (one root cause: the eye-based decision routines are applied to a NOISE-FREE waveform, for which the eye estimator's
+    Gaussian statistics degenerate). GET_EYE takes the level statistics from a +-5% window of every other slot only; on a noise-free
+    waveform (i) the sampled slots may carry no inter-symbol interference, so that a sigma estimate is ~0 and the Gaussian-optimal /
+    KDE threshold sits within 10% of the level distance from that level - ISI-affected symbols of the other slots then cross it; or (ii) the
+    window may hold no sample of one level at all (low sps, all ON slots of one parity), so that a level comes out NaN and no threshold
+    exists. A failure is attributed to F03a only when the eye statistics behind the failing decision are degenerate in exactly this way."""
+    if (part == "ook_dsp" and v.tag == "ook.DSP!=transmitted") or (part == "ppm_dsp" and v.tag == "ppm.DSP!=transmitted" and case.get("decision") == "hard"):
         d = v.data
-        if d and d.get("s_min_rel") is not None and d["s_min_rel"] < 1e-3 and (d["thr_rel"] < 0.02 or d["thr_rel"] > 0.98):
+        if d and (d.get("eye_nan") or (d.get("s_min_rel") is not None and d["s_min_rel"] < 0.01 and (d["thr_rel"] < 0.1 or d["thr_rel"] > 0.9))):
             return "F03a"
     return None
+
+
+def finalize(tier, classes, summary=None):
+    """The known finding is rare (about 1 case in 3000 of the eye-based parts). If it suddenly explains more than 2% of them, something
+    else is wrong (e.g. the eye estimator itself regressed) and that is reported as a violation instead of being absorbed."""
+    viol = []
+    if summary:
+        hits = summary["kf_hits"].get("F03a", 0)
+        n = sum(summary["parts"].get(p_, {}).get("evaluations", 0) for p_ in ("ook_dsp", "ppm_dsp"))
+        if n >= 50 and hits > max(3, 0.02 * n):
+            viol.append({"part": "ook_dsp", "case": {"known_finding_hits": hits, "evaluations": n}, "tag": "known-finding-rate-exploded",
+                         "msg": f"{hits} of {n} eye-based decisions failed with degenerate eye statistics (recorded rate of F03a: ~3e-4)"})
+    return viol, []
 
 
 PARTS = [
